@@ -20,7 +20,7 @@ func init() {
 	register(&Check{
 		ID: "C13", Level: "exploration", Primary: "sessions", EvalCount: "sessions_checked", RaceIsViolation: false,
 		Rule: "one session = a standards-conforming StartTLS upgrade (go-ldap's StartTLS, and a raw client that waits for the response before its ClientHello) through a wiretap proxy recording both directions, " +
-			"against a StartTLS handler (registered on the exact-name route, or - every third timing - performed by the default route) with delays in {0,1,5,50ms, and 0.7-3s} before the reply, between the reply and Request.StartTLS, and after it; 1..64 sessions upgrade in parallel, some after an answered bind/search on the still-plain connection whose handler lingers 300ms, some next to (and after) other sessions that take the StartTLS reply and then send garbage, half a ClientHello or nothing - two of them stay like that, open, for as long as the conforming sessions run; after the upgrade a mix of requests " +
+			"against a StartTLS handler (registered on the exact-name route, or - every third timing - performed by the default route) with delays in {0,1,5,50ms, and 0.7-3s} before the reply, between the reply and Request.StartTLS, and after it; 1..64 sessions upgrade in parallel, some after an answered bind/search on the still-plain connection whose handler lingers 300ms, some next to (and after) other sessions that take the StartTLS reply and then send garbage, half a ClientHello or nothing - two (every fourth timing: twenty) of them stay like that, open, for as long as the conforming sessions run; some sessions end with an operation gldap does not serve (Compare) sent inside the tunnel; after the upgrade a mix of requests " +
 			"(go-ldap bind/search/modify, and pipelined concurrent raw requests over the tunnel) is checked with the C01 comparison; one session keeps using the tunnel after several seconds of think time; part of the sessions stay open and idle until the server is stopped, so that shutdown-time bytes are on the wiretap too. Wiretap oracle: plaintext LDAP frames up to and including the StartTLS request " +
 			"(client->server) / the ExtendedResponse with its message ID (server->client), after which every byte in both directions parses as TLS records (content type 20-23, major version 3, length <= 2^14+2048). " +
 			"distinct_nontrivial = distinct (timing triple, client kind, parallelism) combinations whose upgrade completed",
@@ -28,7 +28,7 @@ func init() {
 		Phases: func(tier string, seed int64) []Phase {
 			return []Phase{{Name: "upgrades", Race: true, Run: c13Run}}
 		},
-		MinObserved: []string{"sessions_checked", "tls_records_classified", "post_upgrade_requests_compared", "sessions_open_and_idle_at_stop", "upgrades_served_by_the_default_route", "requests_answered_after_think_time", "handshakes_failed_or_abandoned_by_other_sessions", "handshakes_left_pending_while_conforming_sessions_upgrade", "sessions_with_an_answered_request_before_the_upgrade", "rendezvous_inside_the_tunnel_satisfied", "high_volume_sessions_after_upgrade", "plaintext_requests_sent_in_the_same_write_as_starttls", "sessions_whose_first_record_is_not_labelled_3_1", "tunnel_requests_checked_against_the_upgrade_handlers_return", "last_requests_sent_together_with_close_notify", "upgrades_after_a_refused_starttls_request", "upgrades_of_connections_opened_seconds_earlier"},
+		MinObserved: []string{"sessions_checked", "tls_records_classified", "post_upgrade_requests_compared", "sessions_open_and_idle_at_stop", "upgrades_served_by_the_default_route", "requests_answered_after_think_time", "handshakes_failed_or_abandoned_by_other_sessions", "handshakes_left_pending_while_conforming_sessions_upgrade", "sessions_with_an_answered_request_before_the_upgrade", "rendezvous_inside_the_tunnel_satisfied", "high_volume_sessions_after_upgrade", "plaintext_requests_sent_in_the_same_write_as_starttls", "sessions_whose_first_record_is_not_labelled_3_1", "tunnel_requests_checked_against_the_upgrade_handlers_return", "last_requests_sent_together_with_close_notify", "upgrades_after_a_refused_starttls_request", "upgrades_of_connections_opened_seconds_earlier", "sessions_ended_by_an_unsupported_operation_inside_the_tunnel"},
 	})
 }
 
@@ -380,7 +380,11 @@ func c13Timed(c *Ctx, pki *PKI, tm c13Timing, par int, ti int) {
 		}
 		// ... and two that took the reply and then just sit there (one silent, one after half a ClientHello) for as
 		// long as the conforming sessions run: somebody else's unfinished handshake is nobody else's delay
-		for k := 0; k < 2; k++ {
+		nPending := 2
+		if ti%4 == 0 {
+			nPending = 20 // (more than any small per-address allowance an implementation might have)
+		}
+		for k := 0; k < nPending; k++ {
 			cn, err := net.Dial("tcp", srv.Addr)
 			if err != nil {
 				continue
@@ -563,6 +567,7 @@ func c13Timed(c *Ctx, pki *PKI, tm c13Timing, par int, ti int) {
 			}
 			det := map[string]any{"timing": tm, "client": kind, "parallel": par}
 			ok := false
+			var tc13 *tls.Conn // the raw-client session's TLS connection, once it exists
 			if kind == "goldap" {
 				raw, err := net.Dial("tcp", tap.Addr())
 				if err != nil {
@@ -648,6 +653,7 @@ func c13Timed(c *Ctx, pki *PKI, tm c13Timing, par int, ti int) {
 				}
 				cn.SetDeadline(time.Time{})
 				ok = true
+				tc13 = tc
 				// pipelined concurrent requests inside the tunnel, compared like C01
 				tcl := wrapClient(tc)
 				n := 4 + r.Intn(8)
@@ -732,6 +738,14 @@ func c13Timed(c *Ctx, pki *PKI, tm c13Timing, par int, ti int) {
 					sent = append(sent, q)
 					mu.Unlock()
 				}
+			}
+			if ok && s%4 == 1 && par > 1 && !c.MuteViolations && tc13 != nil {
+				// the session's last act: an operation gldap does not serve (Compare), inside the tunnel. Whatever the
+				// server has to say about that - a notice, nothing, the close - it says it inside the tunnel
+				tcl := wrapClient(tc13)
+				tcl.Send(sber.Message(int64(8000000+ti*100+s), sber.Cons(sber.Application, 14, sber.Str("cn=a"), sber.Seq(sber.Str("a"), sber.Str("b"))), nil).Encode())
+				tcl.ReadToEOF(c13Wait)
+				c.Count("sessions_ended_by_an_unsupported_operation_inside_the_tunnel", 1)
 			}
 			if ok {
 				mu.Lock()
